@@ -195,9 +195,62 @@ class LexDomain(Domain):
         return None
 
 
-def lexer_value(escape):
-    adt_fields = ("source", "pos", "escape")
-    return Agg("adt", "syntax::lexer::Lexer", 0, "Lexer", (Const(("src",)), P0, Const(bool(escape))))
+_MODES = {}
+
+
+def lexer_modes(facts):
+    """(value of the lexer's mode field in a plain expression, value inside `{ .. }`, index of the field), found by type:
+    the one field that is neither the text nor the position.  A bool is (false, true) as the constructor leaves it; a
+    two-variant enum is (the constructor's variant, the other one)."""
+    key = id(facts)
+    if key in _MODES:
+        return _MODES[key]
+    res = None
+    adt = facts.adt("syntax::lexer::Lexer")
+    if adt is not None:
+        fs = adt["variants"][0]["fields"]
+        idx = [i for i, f in enumerate(fs) if not f["ty"].startswith("&") and f["ty"] not in ("usize", "u32", "u64")]
+        if len(idx) == 1:
+            i = idx[0]
+            ty = fs[i]["ty"]
+            init = None
+            nb = facts.fn("syntax::lexer::Lexer::<'a>::new")
+            if nb is not None:
+                dom = TermDomain(uninterp=lambda n: True)
+                it = core.Interp(facts, dom, budget=2000)
+                try:
+                    outs = it.run(nb, [Sym("src")], {})
+                    vs = {repr(o.value.field(i)): o.value.field(i) for o in outs if o.kind == "ret" and isinstance(o.value, Agg)}
+                    if len(vs) == 1:
+                        init = list(vs.values())[0]
+                except core.Undecided:
+                    init = None
+            if ty == "bool":
+                res = (Const(False), Const(True), i) if init in (None, Const(False), Const(0)) else (Const(True), Const(False), i)
+            else:
+                e = facts.adt(ty)
+                if e is not None and e["is_enum"] and len(e["variants"]) == 2 and isinstance(init, Agg):
+                    other = 1 - init.vi
+                    res = (init, Agg("adt", ty, other, e["variants"][other]["name"], ()), i)
+    _MODES[key] = res
+    return res
+
+
+def lexer_value(escape, facts=None):
+    """Abstract Lexer at the start of a call: text, position 0 (abstracted), mode (plain expression / inside braces)."""
+    modes = lexer_modes(facts) if facts is not None else None
+    if modes is None:
+        return Agg("adt", "syntax::lexer::Lexer", 0, "Lexer", (Const(("src",)), P0, Const(bool(escape))))
+    adt = facts.adt("syntax::lexer::Lexer")
+    vals = []
+    for i, f in enumerate(adt["variants"][0]["fields"]):
+        if i == modes[2]:
+            vals.append(modes[1] if escape else modes[0])
+        elif f["ty"].startswith("&"):
+            vals.append(Const(("src",)))
+        else:
+            vals.append(P0)
+    return Agg("adt", "syntax::lexer::Lexer", 0, "Lexer", tuple(vals))
 
 
 def r1_who_writes_pos(facts, rep):
@@ -348,7 +401,7 @@ def _r3_one(job):
     escape, first = job
     dom = LexDomain(ats, facts=facts)
     it = core.Interp(facts, dom, budget=400000)
-    store = {(0, 0): lexer_value(escape)}
+    store = {(0, 0): lexer_value(escape, facts)}
     store = dom.setlex(store, first, None)
     key = "escape=%s:first=%s" % (escape, chars.describe(first))
     rule = "C12-R4" if first == "EOF" else "C12-R3"
@@ -789,7 +842,7 @@ def r6_loops(facts, rep, ats):
                 for combo in combos:
                     dom = ProgressDomain(ats, facts=facts)
                     it = core.Interp(facts, dom, budget=600000)
-                    st0 = {(0, 0): lexer_value(escape)}
+                    st0 = {(0, 0): lexer_value(escape, facts)}
                     work = []
                     for o in it.run(b, combo, st0, stop=set(heads)):
                         if o.kind == "stop":
